@@ -165,11 +165,11 @@ def check_isnone(run, F):
             run.ob('NUL.coherent', ms['unwrap'], key + 'unwrap', t == T(([], 'self', [])),
                    ms['unwrap'].loc(), 'table %s' % dtree.show(t))
         if 'map' in ms:
-            leaf = one_leaf(tbl(ms['map']))
-            want = ('self.map(|a0| IsNone::from_inner(f(a0))).unwrap_or(NULL)' if opt
-                    else 'IsNone::from_inner(f(self))')
-            run.ob('NUL.coherent', ms['map'], key + 'map', leaf == want, ms['map'].loc(),
-                   'map = %s' % leaf)
+            tm = tbl(ms['map'])
+            want = T((['VALID(self)'], 'IsNone::from_inner(f(self))', []), (['!VALID(self)'], 'NULL', [])) if opt \
+                else T(([], 'IsNone::from_inner(f(self))', []))
+            run.ob('NUL.coherent', ms['map'], key + 'map', tm == want, ms['map'].loc(),
+                   'map table %s' % dtree.show(tm))
     return n
 
 
@@ -184,8 +184,13 @@ def check_defaults(run, F):
     n = 0
     for name, w in want.items():
         fn = F.one('isnone::IsNone::' + name)
-        leaf = one_leaf(tbl(fn))
+        t_ = tbl(fn)
+        leaf = one_leaf(t_)
         n += 1
+        if name == 'map':
+            okm = t_ == T((['VALID(self)'], 'IsNone::from_inner(f(self))', []), (['!VALID(self)'], 'NULL', []))
+            run.ob('NUL.default', fn, 'IsNone::map', okm, fn.loc(), 'map table %s' % dtree.show(t_))
+            continue
         run.ob('NUL.default', fn, 'IsNone::%s' % name, leaf == w, fn.loc(), '%s = %s' % (name, leaf))
     return n
 
